@@ -3,14 +3,22 @@
 proof   : XmpProps.C04 over XmpModel.Resource (heap/descriptor ledger; xmp_start_player with the
           unwinding table generated from player.c, xmp_end_player, xmp_release_module on ANY partially
           built module, load_module with an arbitrary loader result, hio open/reopen/close with
-          noclose, cbopen/cbclose, make_temp_file/unlink_temp_file) - for every allocation oracle
+          noclose and with closes that report errors, cbopen/cbclose, make_temp_file/unlink_temp_file,
+          xmp_start_smix / xmp_smix_load_sample / xmp_end_smix, libxmp_scan_sequences on a live context)
+          - for every allocation oracle - and over XmpModel.StartFail (the image of struct context_data
+          after a failing start, on C06's context model: reuse theorems through C06_restart_independent /
+          C06_history_independent)
 tie     : (T) tools/gen_c04.py regenerates XmpModel/Gen/StartCfg.lean (goto labels and label blocks of
-          xmp_start_player and make_temp_file) from the working tree; the theorems hold for every table
-          with `Sound = true`, and the check evaluates `Sound` on the generated table each run.
+          xmp_start_player and make_temp_file; what libxmp_virt_on's failure path zeroes; whether
+          xmp_smix_load_sample writes the slot before its commit / releases the old contents; whether
+          hio_reopen_* bail out on a failing close) from the working tree; the theorems hold for every
+          table with `Sound = true` / `idleAfter = true`, evaluated on the generated table each run.
           (C) harness/c04_faults.c logs, through --wrap=malloc/calloc/realloc/free, the blocks that are
-          live after every faulted xmp_start_player and the blocks really freed by every
-          xmp_release_module (classified through the private headers); drv_c04 runs the model on the
-          same parameters; the ledgers are compared.
+          live after every faulted xmp_start_player (from LOADED, from PLAYING, and a second faulted start
+          on the residue of a failed one) and the blocks really freed by every xmp_release_module
+          (classified through the private headers); drv_c04 runs the model on the same parameters; the
+          ledgers are compared.  Member level: the complete image of struct context_data (C06's generated
+          leaf list) before/after every failed start vs XmpModel.StartFail.failedStart.
 search  : the same harness *is* the oracle: for corpus modules and malformed variants every allocation
           index k, truncation classes, failing reads, helper outcomes, temp-dir faults; after each
           faulted call: return code, state, residue (blocks of the call still live), leaks after the
@@ -22,7 +30,9 @@ import re
 import shutil
 import stat
 
+import c04_inputs
 import gen_c04
+import gen_ctx_fields
 import vlib
 
 LEVEL = "proof"
@@ -34,35 +44,89 @@ MANIFEST = dict(
          "table accepted by a decidable soundness predicate (C04_start_atomic; the table is regenerated from player.c on every "
          "run and evaluated), that load_module with an arbitrary loader result is atomic (C04_load_atomic), that over every "
          "open;reopen*;close sequence the caller's FILE is never closed, an owned FILE and the close callback exactly once "
-         "(C04_stream_ownership, by induction over the reopen list), that the temp-file protocol leaves no file, descriptor or block "
-         "behind for every sound table of make_temp_file (C04_tempfile), and that the context after a failed load equals the fresh "
-         "context (C04_reusable). Counterexample theorems record the pinned/intermediate unwinding tables that really leaked. "
-         "The model is tied to the C by the generated tables and by a differential correspondence of allocation ledgers; a "
-         "fault-injection oracle (every allocation index, truncations, read faults, helper outcomes) evaluates the property on "
-         "the real code and yields replayable failing inputs.",
-    note="Trusted: Lean kernel (propext/Classical.choice/Quot.sound only), the hand-written model XmpModel/Resource.lean, "
-         "tools/gen_c04.py (regular expressions over player.c/tempfile.c), harness and differ. Partial: the ~110 format loaders "
-         "and the depackers are NOT modelled - their local temporaries (hundreds of allocation sites) are reached only by the "
-         "fault enumeration (quick: ~30 small modules x 2 entry points x every allocation index; thorough: every corpus file "
-         "<= 64 KiB x 4 entry points x every index, larger files ~120 indices each). Reusability after a failed START is not a "
-         "theorem (only state/ledger restoration is); it is checked dynamically by the PCM digest of a normal start+play on the same "
-         "context. Model assumptions checked dynamically by the harness: count fields never exceed the allocated table length "
-         "when xmp_release_module runs, no block is referenced twice. fclose()/close_func failures are not modelled. "
-         "Correspondence is sampled (differential), not exhaustive.",
+         "(C04_stream_ownership, by induction over the reopen list) - also when closes report errors, for the hio_reopen_* that "
+         "switch streams regardless (C04_stream_ownership_close_failures; flag regenerated from hio.c) -, that the temp-file "
+         "protocol leaves no file, descriptor or block behind for every sound table of make_temp_file (C04_tempfile), that the "
+         "context after a failed load equals the fresh context (C04_reusable), that a LOADED context left by any number of failed "
+         "starts (stale counts, NULL pointers) makes the next xmp_start_player compute literally the same world, return code and "
+         "player as a fresh one (C04_reusable_start[_gen], C04_failed_start_invariant), that xmp_start_player on a PLAYING context "
+         "(implicit xmp_end_player) is atomic (C04_restart_atomic, C04_restart_after_start), that xmp_start_smix / "
+         "xmp_smix_load_sample leave tables, counts, heap and descriptors as before on every failure and xmp_end_smix releases "
+         "everything once (C04_smix_atomic, C04_smix_end_total, C04_smix_load_ok), and that a rescan of a live context "
+         "(libxmp_scan_sequences via xmp_set_player / xmp_scan_module) keeps p->scan one live block for every oracle and "
+         "that xmp_set_player(XMP_PLAYER_MODE) is refused with the old mode restored and rescanned exactly when the rescan "
+         "under the new mode fails (C04_rescan_atomic, C04_set_player_mode_atomic). Member level (XmpModel.StartFail on C06's context model): a failing start writes no member the next "
+         "start depends on, so by C06_restart_independent the same module restarts with the same player view "
+         "(C04_reusable_restart_view); where the decidable predicate idleAfter holds for the generated table the context is "
+         "well-formed idle (C04_failed_start_wf) and by C06_history_independent / C06_loaded_view another module loads and plays as "
+         "on a fresh context (C04_reusable_reload_view). Counterexample theorems record the defects found: the pinned/intermediate "
+         "unwinding tables that leaked, the stale virt counts libxmp_virt_on left (C04_virt_counts_residue), the double fclose of the "
+         "bailing hio_reopen_* (C04_reopen_double_close), the occupied-slot leak of xmp_smix_load_sample (C04_smix_occupied_leak). "
+         "The model is tied to the C by generated tables/flags and by differential correspondence of allocation ledgers and whole "
+         "context images; a fault-injection oracle (every allocation index, truncations, read faults, helper outcomes, failing "
+         "fclose / close callback, every smix call, rescans) evaluates the property on the real code and yields replayable inputs.",
+    note="Trusted: Lean kernel (propext/Classical.choice/Quot.sound only), the hand-written models XmpModel/Resource.lean and "
+         "XmpModel/StartFail.lean (+ C06's XmpModel/Reset.lean), tools/gen_c04.py (regular expressions over player.c, tempfile.c, "
+         "virtual.c, smix.c, hio.c), harness and differ. Partial: the ~110 format loaders and the depackers are NOT modelled - their "
+         "local temporaries (hundreds of allocation sites) are reached only by the fault enumeration (quick: ~30 small modules x 2 "
+         "entry points x every allocation index; thorough: every corpus file <= 64 KiB x 4 entry points x every index, larger files "
+         "~120 indices each) and, for the header/table region of the core formats, by the every-byte truncation sweep + allocation "
+         "schedule over deterministic inputs (tools/c04_inputs.py: ITs with edit-history / MIDI-configuration blocks, smallest "
+         "XM/IT/S3M/MOD; every length 0..size through mem + one rotating entry point, load and test, live blocks counted per call). Reusability after a failed START: proved at ledger level for every oracle and at member level through "
+         "C06's model, under the hypotheses that the module has a playable order (the start then leaves mod->len alone) and that the "
+         "scan reached the start order; what playback computes from the player view is C06's trusted part. The smix model assumes "
+         "that xmp_smix_load_sample writes the slot only at its commit (checked on every run from smix.c: any earlier `xxi->`/`xxs->` "
+         "assignment is reported); xmp_smix_release_sample while a voice plays the sample is the caller's responsibility and not "
+         "modelled. Rescans: only the memory protocol of libxmp_scan_sequences is modelled (what the scan computes is not); "
+         "xmp_set_player(XMP_PLAYER_MODE) acts on its result since e307a0a (modelled: Resource.setPlayerMode; the six restored mode "
+         "members are checked by the harness oracle only); XMP_PLAYER_CFLAGS and xmp_scan_module still ignore it (noted, not a "
+         "violation: the previous scan data stays valid). Close failures: fclose of library-owned FILEs and the user close callback are injected; fork/pipe "
+         "failures and signals are not. Model assumptions checked dynamically by the harness: count fields never exceed the "
+         "allocated table length when xmp_release_module runs, no block is referenced twice. Correspondence is sampled "
+         "(differential), not exhaustive: per quick run ~250 start ledgers (from LOADED, from PLAYING, second fault on the residue), "
+         "~280 whole context images after failed starts (~130 members each), ~2000 release ledgers, 26 smix ledgers, 8 close-failure "
+         "cases, 5 rescan ledgers.",
     technique="Lean 4 proofs by multiset counting over a heap ledger + abstract interpretation of generated unwinding tables + "
-              "link-time fault injection (--wrap) with an exact allocation tracker under ASan/UBSan/LSan",
+              "member-level frame reasoning on C06's context model + link-time fault injection (--wrap of the allocator, fclose, "
+              "fopen, mkstemp, fdopen) with an exact allocation tracker under ASan/UBSan/LSan",
     design_ref="DESIGN.md section 4 C04",
 )
 REQUIRED = ["Xmp.Resource.C04_release_total", "Xmp.Resource.C04_start_atomic", "Xmp.Resource.C04_load_atomic",
-            "Xmp.Resource.C04_stream_ownership", "Xmp.Resource.C04_tempfile", "Xmp.Resource.C04_reusable"]
+            "Xmp.Resource.C04_stream_ownership", "Xmp.Resource.C04_tempfile", "Xmp.Resource.C04_reusable",
+            # reuse after failed starts (ledger level) and restart while playing
+            "Xmp.Resource.C04_reusable_start_gen", "Xmp.Resource.C04_failed_start_invariant", "Xmp.Resource.C04_reusable_start",
+            "Xmp.Resource.C04_reuse_needs_strict_entry", "Xmp.Resource.C04_restart_atomic", "Xmp.Resource.C04_restart_after_start",
+            # reuse after a failed start, member level (with C06's reset theorems)
+            "Xmp.StartFail.C04_reusable_restart_view", "Xmp.StartFail.C04_failed_start_wf", "Xmp.StartFail.C04_reusable_reload_view",
+            "Xmp.StartFail.C04_idle_fixed", "Xmp.StartFail.C04_virt_counts_residue",
+            # sound-effect mixer calls
+            "Xmp.Resource.C04_smix_atomic", "Xmp.Resource.C04_smix_end_total", "Xmp.Resource.C04_smix_load_ok",
+            "Xmp.Resource.C04_smix_occupied_leak",
+            # closing that reports an error
+            "Xmp.Resource.C04_stream_ownership_close_failures", "Xmp.Resource.C04_reopen_bailing_ok_without_failures",
+            "Xmp.Resource.C04_reopen_double_close",
+            # rescans on a live context
+            "Xmp.Resource.C04_rescan_atomic", "Xmp.Resource.C04_set_player_mode_atomic"]
 
 WRAP = ["-Wl,--wrap=malloc", "-Wl,--wrap=calloc", "-Wl,--wrap=realloc", "-Wl,--wrap=free",
-        "-Wl,--wrap=libxmp_release_module_extras", "-Wl,--wrap=mkstemp", "-Wl,--wrap=fdopen"]
+        "-Wl,--wrap=libxmp_release_module_extras", "-Wl,--wrap=mkstemp", "-Wl,--wrap=fdopen",
+        "-Wl,--wrap=fclose", "-Wl,--wrap=fopen"]
 ENTRIES = ["path", "mem", "file", "cb"]
+SMIX_SCENARIOS = ["start", "restart", "load", "reload", "loadhdr", "loadshort", "loadrange", "startinval", "end",
+                  "startplaying", "endplaying"]
+
+
+def hdr_hash():
+    """the harness includes C06's image headers (one of them generated): make them part of the build key"""
+    import hashlib
+    h = hashlib.sha256()
+    for f in ("c06_image.h", "c06_ctxfields.h"):
+        h.update(open(os.path.join(vlib.HARNESS, f), "rb").read())
+    return "C04_HDR=0x" + h.hexdigest()[:7]
 
 
 def build():
-    return vlib.build_harness("c04_faults", ["c04_faults.c"], extra=WRAP)
+    return vlib.build_harness("c04_faults", ["c04_faults.c"], extra=WRAP, defines=[hdr_hash()])
 
 
 # --------------------------------------------------------------------------
@@ -85,8 +149,19 @@ def parse_output(text):
     """-> list of cases {kind, fields, viols:[(sig,text)], leaks:[site], traces:[line]}, and loose lines"""
     cases, pend_v, pend_l, traces, notes = [], [], [], [], []
     fault = None
+    fblock = None
+    cur_case = ""
     for line in text.splitlines():
-        if line.startswith("viol "):
+        if line.startswith("case "):
+            cur_case = line[5:]
+        if line.startswith("fcase "):
+            fblock = [line]
+        elif fblock is not None:
+            fblock.append(line)
+            if line == "fend":
+                traces.append("\n".join(fblock))
+                fblock = None
+        elif line.startswith("viol "):
             f = line.split(" ", 2)
             pend_v.append((f[1], f[2] if len(f) > 2 else ""))
         elif line.startswith("leak "):
@@ -103,7 +178,7 @@ def parse_output(text):
         elif line.startswith("base ") or line.startswith("k "):
             f = dict(x.split("=", 1) for x in line.split(" ")[1:] if "=" in x)
             cases.append({"kind": line.split(" ", 1)[0], "f": f, "viols": pend_v, "leaks": pend_l, "line": line,
-                          "fault": fault})
+                          "fault": fault, "case": cur_case})
             pend_v, pend_l, fault = [], [], None
         elif line.startswith(("own ", "smix ", "reads ", "case ", "skip ", "begin ", "end", "stride ")):
             notes.append(line)
@@ -139,6 +214,7 @@ class Runner:
     def __init__(self, ck, exe, scratch):
         self.ck, self.exe, self.scratch = ck, exe, scratch
         self.traces = set()
+        self.sigs = set()
         self.own_notes = []
         self.stats = {}
         self.njob = 0
@@ -205,7 +281,7 @@ def fold(R, res):
         fired = f.get("fired") == "1"
         rc = int(f.get("rc", "0"))
         nontrivial = (fired and rc < 0) or (job.get("malformed") and rc < 0)
-        ck.count((what, f.get("op"), f.get("k"), job.get("case", "")), nontrivial=bool(nontrivial))
+        ck.count((what, f.get("op"), f.get("k"), job.get("case", ""), c.get("case", "")), nontrivial=bool(nontrivial))
         R.bump("cases")
         R.bump("op_" + f.get("op", "?"))
         if fired:
@@ -218,9 +294,13 @@ def fold(R, res):
             if job.get("kpos") is not None and f.get("k") not in (None, "-1"):
                 rep_args[job["kpos"]] = f["k"]
                 rep_args[job["kpos"] + 1] = f["k"]
+            m_len = re.match(r"len=(\d+)$", c.get("case", ""))
+            if job["args"][0] == "trunc" and m_len:
+                rep_args = job["args"][:3] + [m_len.group(1)]       # one length of the sweep
             rp = {"argv": rep_args, "env": job["env"], "files": job.get("files", {}), "case": c["line"]}
             sigs = [(s, t) for s, t in c["viols"]] + [(leak_signature(s, c.get("fault")), l) for _, s, l in c["leaks"]]
             for sig, text in sigs:
+                R.sigs.add(sig)
                 ck.violation(sig, rp, "%s: %s [%s k=%s]" % (sig, text[:200], what, f.get("k")))
     for ab in res["aborts"]:
         rep_args = list(ab["args"])
@@ -273,9 +353,10 @@ def pick_modules(ck, n, maxsize):
     return fixed + chosen[:max(0, n - len(fixed))]
 
 
-def make_wav(path, nbytes=64):
+def make_wav(path, nbytes=64, actual=None):
+    """mono 8-bit WAV; `actual` < nbytes: the header promises more sample data than the file holds"""
     import struct
-    data = bytes((i * 7) & 0xff for i in range(nbytes))
+    data = bytes((i * 7) & 0xff for i in range(nbytes if actual is None else actual))
     hdr = b"RIFF" + struct.pack("<I", 36 + nbytes) + b"WAVEfmt " + struct.pack("<IHHIIHH", 16, 1, 1, 8000, 8000, 1, 8)
     open(path, "wb").write(hdr + b"data" + struct.pack("<I", nbytes) + data)
 
@@ -304,6 +385,9 @@ def make_helper_dir(d, mode, module):
 
 def run(ck):
     gen = gen_c04.generate()
+    gen_ctx_fields.generate()      # leaf list of struct context_data (C06's generator): harness/c06_ctxfields.h + Gen/CtxFields.lean
+    ck.note("generated_flags", {k: gen[k] for k in ("virtOnFailZeroes", "smixLoadReleasesOld", "smixLoadEarlyWrites",
+                                                    "reopenBailsOnCloseFailure")})
     ck.note("generated_unwinding_table", {k: gen[k] for k in ("startSites", "startLabels", "tempSites", "tempLabels")})
     ck.proofs(["XmpProps.C04"], required=REQUIRED, drivers=["drv_c04"])
     exe = build()
@@ -313,12 +397,13 @@ def run(ck):
     os.makedirs(scratch)
     R = Runner(ck, exe, scratch)
     try:
-        _run(ck, R, exe, quick, scratch)
+        _run(ck, R, exe, quick, scratch, gen)
     finally:
         shutil.rmtree(scratch, ignore_errors=True)
 
 
-def _run(ck, R, exe, quick, scratch):
+def _run(ck, R, exe, quick, scratch, gen=None):
+    gen = gen or {}
     # ---- (T) the generated unwinding tables must satisfy the hypothesis of the theorems ----
     if ck.lean_ok:
         o = vlib.run_driver("drv_c04", "startcfg\n")[0]
@@ -330,6 +415,16 @@ def _run(ck, R, exe, quick, scratch):
         if kv.get("tempsound") != "true":
             ck.unproved("C04_tempfile hypothesis `tempCfgNow.Sound`",
                         "the unwinding table generated from make_temp_file does not release what it acquired")
+
+    if gen.get("smixLoadEarlyWrites"):
+        ck.unproved("C04_smix_atomic model assumption: xmp_smix_load_sample writes the slot only when it commits",
+                    "smix.c assigns %s before its last failure branch" % ", ".join(gen["smixLoadEarlyWrites"]))
+    idle_bad = []
+    if ck.lean_ok:
+        o = vlib.run_driver("drv_c04", "idle\n")[0]
+        ck.note("model_idle_after_failed_start", o)
+        kv = dict(x.split("=", 1) for x in o.split(" "))
+        idle_bad = [x.split(":")[0] for x in kv.get("idle", "").split(",") if x.endswith(":false")]
 
     mods = pick_modules(ck, 30 if quick else 400, 32000 if quick else 65536)
     ck.note("modules", [os.path.basename(m) for m in mods][:60])
@@ -419,6 +514,54 @@ def _run(ck, R, exe, quick, scratch):
     add("smixload", ["faults", "smixload", "mem", good[0], 0, -1, 1, 6, wav], kpos=4)
     add("smixload-trunc", ["faults", "smixload", "mem", good[0], -1, 0, 1, 6, garbage], malformed=True)
     add("smix-restart", ["smix"])
+    # H'. every smix call after its prelude, every allocation index; ledger traces for Resource.startSmix/...
+    trunc = os.path.join(scratch, "trunc.wav")
+    make_wav(trunc, 64, actual=10)
+    for scn in SMIX_SCENARIOS:
+        for m in (good[:1] + ext[:1]):
+            add("smix:%s:%s" % (scn, os.path.basename(m)), ["smixfaults", scn, "mem", m, 0, -1, 1, wav, trunc, garbage], kpos=4)
+
+    # I. closing reports an error: the j-th fclose of a load / test by path (plain, through the internal gzip
+    #    depacker, through an external helper) for every j; a close callback returning -1
+    import gzip
+    gz = os.path.join(scratch, "mod.gz")
+    open(gz, "wb").write(gzip.compress(open(good[0], "rb").read()))
+    for op in ("load", "test"):
+        add("closefault:%s:plain" % op, ["closefault", op, "path", good[0], "-"], malformed=True)
+        add("closefault:%s:gz" % op, ["closefault", op, "path", gz, "m"], malformed=True)
+        add("closefault:%s:cb" % op, ["closefault", op, "cb", good[0], "-"], malformed=True)
+
+        def env_helper(d):
+            hd = os.path.join(d, "bin")
+            make_helper_dir(hd, "module", good[0])
+            return base_env(d, path_prefix=hd)
+        add("closefault:%s:helper" % op, ["closefault", op, "path", rar, "f"], env=env_helper, malformed=True)
+    add("closefault:test:file-gz", ["closefault", "test", "file", gz, "m"], malformed=True)
+
+    # K. header / table region of the core formats: EVERY truncation length (not a sample of cut points) and the
+    #    every-allocation-fails schedule, over IT files with an edit-history and / or MIDI-configuration block
+    #    (synthetic: tools/c04_inputs.py) and the smallest XM / IT / S3M / MOD files; live-block accounting per call
+    core = c04_inputs.core_inputs(os.path.join(scratch, "core"))
+    ck.note("core_inputs", [(os.path.basename(m), end) for m, end in core])
+    for i, (m, end) in enumerate(core):
+        bn = os.path.basename(m)
+        ents = ["mem", ENTRIES[(i + seed) % 4]] if quick else ENTRIES
+        for e in dict.fromkeys(ents):
+            add("sweep:%s:%s" % (e, bn), ["trunc", e, m] + list(range(0, end + 1)), malformed=True)
+            add("load:%s:%s" % (e, bn), ["faults", "load", e, m, 0, -1, 1], kpos=4)
+        add("test:%s" % bn, ["faults", "test", ENTRIES[(i + seed + 2) % 4], m, 0, -1, 1], kpos=4)
+        add("start:" + bn, ["faults", "start", "mem", m, 0, -1, 1], kpos=4)
+
+    # J. rescans on a live context: xmp_set_player(MODE / CFLAGS) while playing, xmp_scan_module loaded and playing
+    resc = [m for m in mods if re.search(r"\.(mod|xm|it|s3m)$", m, re.I)][:4 if quick else 40]
+    for m in resc + ([os.path.join(vlib.REPO, "test-dev", "data", "ode2ptk.mod")] if quick else []):
+        if not os.path.exists(m):
+            continue
+        bn = os.path.basename(m)
+        add("rescan:mode:" + bn, ["rescan", "mode", 1, m, 0, -1, 1], kpos=4)
+        add("rescan:cflags:" + bn, ["rescan", "cflags", 1, m, 0, -1, 1], kpos=4)
+        add("rescan:scan:" + bn, ["rescan", "scan", 0, m, 0, -1, 1], kpos=4)
+        add("rescan:scan-playing:" + bn, ["rescan", "scan", 1, m, 0, -1, 1], kpos=4)
 
     results = vlib.pmap(run_faults_job, jobs)
     for res in results:
@@ -426,6 +569,13 @@ def _run(ck, R, exe, quick, scratch):
     for k, v in sorted(R.stats.items()):
         ck.note(k, v)
     ck.note("jobs", len(jobs))
+
+    # the hypothesis of C04_failed_start_wf / C04_reusable_reload_view on the generated table and flag: where it is
+    # false the model predicts stale player members after a failed start (theorem C04_virt_counts_residue); the
+    # harness oracle `residue:*` then reports the real thing - if it did not, model and code disagree
+    if idle_bad and not any(x.startswith("residue:") for x in R.sigs):
+        ck.unproved("C04_failed_start_wf hypothesis `idleAfter startCfgNow site vfrNow`",
+                    "false at failure sites %s although the real code showed no residue there" % ",".join(idle_bad))
 
     # ---- (C) correspondence: ledgers of the real code vs the model ----
     correspondence(ck, R)
@@ -436,7 +586,8 @@ def _run(ck, R, exe, quick, scratch):
     ck.assumptions += [
         "allocation failures are injected at link level (--wrap): only allocator calls made from libxmp objects fail, libc-internal "
         "allocations (fopen buffers) never do",
-        "fclose()/user close callback failures, fork/pipe failures and signals are not injected",
+        "fclose() failures of library-owned FILEs and a failing user close callback are injected (closefault); fork/pipe "
+        "failures and signals are not",
         "model: count fields do not exceed the allocated table length and no block is referenced twice when xmp_release_module runs "
         "(the harness checks both on every release it observes)",
     ]
@@ -445,26 +596,103 @@ def _run(ck, R, exe, quick, scratch):
 def correspondence(ck, R):
     if not ck.lean_ok:
         return
-    starts, rels = {}, {}
+    starts, rels, smixes, closes, rescans, rescan_base = {}, {}, {}, {}, {}, {}
     for t in R.traces:
+        if t.startswith("trace rescan "):
+            kv = dict(x.split("=", 1) for x in t.split(" ")[2:] if "=" in x)
+            if kv["k"] == "-1":
+                rescan_base[(kv["which"], kv["playing"], kv["file"])] = (int(kv["n"]) - 1 - int(kv["shrink"]), kv["shrink"])
+    for t in R.traces:
+        if t.startswith("fcase "):
+            continue
         f = t.split(" ")
         kv = dict(x.split("=", 1) for x in f[2:] if "=" in x)
         if f[1] == "start":
             key = "start %s %s %s %s %s %s" % (kv["amiga"], kv["extras"], kv["maxvoc"], kv["virtch"], kv["playing"], kv["k"])
             starts.setdefault(key, set()).add("rc=%s state=%s nalloc=%s live=%s" % (kv["rc"], kv["state"], kv["nalloc"], kv["live"]))
+        elif f[1] == "start2":
+            key = "start2 %s %s %s %s %s %s" % (kv["amiga"], kv["extras"], kv["maxvoc"], kv["virtch"], kv["k"], kv["k2"])
+            starts.setdefault(key, set()).add("rc=%s state=%s nalloc=%s live=%s" % (kv["rc"], kv["state"], kv["nalloc"], kv["live"]))
+        elif f[1] == "rescan":
+            vbl, bshrink = rescan_base.get((kv["which"], kv["playing"], kv["file"]), (None, None))
+            if vbl not in (0, 1):
+                if kv["n"] != "0":
+                    ck.unproved("correspondence Resource.scanSequences vs libxmp_scan_sequences",
+                                "the unfaulted rescan of %s makes an unexpected number of allocator calls (%s)" % (kv["file"], vbl))
+                continue
+            if kv["which"] == "0":
+                # xmp_set_player(XMP_PLAYER_MODE): parameters of the rescan under the new mode from the unfaulted call,
+                # of the rescan under the old mode from the unfaulted xmp_scan_module the harness ran before
+                vold = int(kv["nold"]) - 1 - int(kv["shrinkold"])
+                if vold not in (0, 1):
+                    ck.unproved("correspondence Resource.setPlayerMode vs xmp_set_player",
+                                "the rescan of %s under the old mode makes %s allocator calls" % (kv["file"], kv["nold"]))
+                    continue
+                key = "rescanmode %d %s %d %s %s" % (vbl, bshrink, vold, kv["shrinkold"], kv["k"])
+                rescans.setdefault(key, set()).add("rc=%s n=%s owned=%s other=%s mode=%s" % (
+                    kv["rc"], kv["n"], kv["owned"], kv["other"], kv["mode"]))
+                continue
+            key = "rescan %d 1 %s %s" % (vbl, kv["shrink"], kv["k"])
+            rescans.setdefault(key, set()).add("n=%s owned=%s other=%s" % (kv["n"], kv["owned"], kv["other"]))
+        elif f[1] == "closefail":
+            # an external-helper step also fcloses the pipe from the helper (execute_command; not a stream of the
+            # model, its result is ignored): it is the first fclose of the call
+            steps = kv["steps"].replace("-", "")
+            npipe = steps.count("f")
+            j = int(kv["j"])
+            mj = "none" if j < npipe else str(j - npipe)
+            key = "closefail %s %s %s" % (kv["entry"], mj, " ".join(steps))
+            closes.setdefault(key.strip(), set()).add("fcloses=%d caller=%s" % (int(kv["fcloses"]) - npipe, kv["caller"]))
+        elif f[1] == "smix":
+            key = "smix %s %s" % (kv["scn"], kv["k"])
+            smixes.setdefault(key, set()).add(" ".join("%s=%s" % (x, kv[x]) for x in (
+                "rc", "nalloc", "xxi", "xxs", "chn", "ins", "subs", "datas", "live", "lost", "fds")))
         elif f[1] == "release":
             key = "release 0 %s" % kv["owned"]
             rels.setdefault(key, set()).add("freed=%s twice=%s missed=%s nonnull_after=%s state=%s" % (
                 kv["freed"], kv["twice"], kv["missed"], kv["nonnull_after"], kv["state"]))
-    keys = sorted(starts) + sorted(rels)
+    keys = sorted(starts) + sorted(rels) + sorted(smixes) + sorted(closes) + sorted(rescans)
     if not keys:
         ck.unproved("correspondence Resource vs C", "the harness produced no ledger traces")
         return
     outs = vlib.run_driver("drv_c04", "\n".join(keys) + "\n")
     n_ok = 0
     for key, mo in zip(keys, outs):
-        real = starts.get(key) or rels.get(key)
+        real = starts.get(key) or rels.get(key) or smixes.get(key) or closes.get(key) or rescans.get(key)
         mo_c = re.sub(r" bad=\d+$", "", mo)
+        if key.startswith("rescanmode "):
+            # a module already in the target mode cannot tell old from new: take the model's word for `mode`
+            mmode = re.search(r"mode=(\w+)", mo_c).group(1)
+            real_n = {x.replace("mode=any", "mode=" + mmode) for x in real}
+            if real_n != {mo_c} or not mo.endswith(" bad=0"):
+                ck.unproved("correspondence Resource.setPlayerMode vs xmp_set_player(XMP_PLAYER_MODE)",
+                            "case `%s`: real=%s model=%s" % (key, sorted(real), mo))
+            else:
+                n_ok += 1
+            continue
+        if key.startswith("rescan "):
+            if real != {mo_c} or not mo.endswith(" bad=0"):
+                ck.unproved("correspondence Resource.scanSequences vs libxmp_scan_sequences (rescan on a live context)",
+                            "case `%s`: real=%s model=%s" % (key, sorted(real), mo))
+            else:
+                n_ok += 1
+            continue
+        if key.startswith("closefail "):
+            mkv = dict(x.split("=", 1) for x in mo.split(" "))
+            want = "fcloses=%s caller=%s" % (mkv["fcloses"], mkv["caller"])
+            if real != {want} or mkv["live"] != "0" or mkv["fds"] != "0":
+                ck.unproved("correspondence Resource.streamLifeR vs hio_reopen_*/hio_close (close failures)",
+                            "case `%s`: real=%s model=%s" % (key, sorted(real), mo))
+            else:
+                n_ok += 1
+            continue
+        if key.startswith("smix "):
+            if real != {mo_c} or not mo.endswith(" bad=0"):
+                ck.unproved("correspondence Resource.startSmix/smixLoadSample/endSmix vs smix.c",
+                            "case `%s`: real=%s model=%s" % (key, sorted(real), mo))
+            else:
+                n_ok += 1
+            continue
         if key.startswith("start") and " bad=0" not in mo:
             # the model itself predicts an invalid free on the current table: surfaces as unsound table / real abort
             pass
@@ -496,9 +724,84 @@ def correspondence(ck, R):
             else:
                 n_ok += 1
     ck.note("callback_open_failures_compared", len(own))
+    n_ok += correspondence_images(ck, R)
     ck.cov["traces_validated_against_impl"] += n_ok
+    ck.note("smix_ledgers_compared", len(smixes))
+    ck.note("close_failure_cases_compared", len(closes))
+    ck.note("rescan_ledgers_compared", len(rescans))
     ck.note("start_ledgers_compared", len(starts))
     ck.note("release_ledgers_compared", len(rels))
+
+
+def correspondence_images(ck, R):
+    """member-level: the complete image of struct context_data after every failed xmp_start_player the harness
+    produced vs XmpModel.StartFail.failedStart evaluated on the image before the call"""
+    blocks = sorted(set(t for t in R.traces if t.startswith("fcase ")))
+    if not blocks:
+        ck.unproved("correspondence StartFail.failedStart vs xmp_start_player", "the harness produced no failed-start images")
+        return 0
+    n_ok, n_vals, n_ext, sites = 0, 0, 0, {}
+    CH = 60
+    for c0 in range(0, len(blocks), CH):
+        chunk = blocks[c0:c0 + CH]
+        text = []
+        for i, b in enumerate(chunk):
+            ls = b.split("\n")
+            h = ls[0].split(" ")
+            h[1] = "c%d" % i
+            text.append(" ".join(h))
+            text += [l for l in ls[1:] if not l.startswith("post ")]
+        out = vlib.run_driver("drv_c04", "\n".join(text) + "\n", timeout=900)
+        model, cur = {}, None
+        for l in out:
+            f = l.split(" ")
+            if f[0] == "begin":
+                cur = model.setdefault(f[1], {"site": f[2], "second": f[3], "m": {}})
+            elif f[0] == "model" and cur is not None:
+                cur["m"][f[1]] = f[2:]
+        for i, b in enumerate(chunk):
+            ls = b.split("\n")
+            real = {}
+            for l in ls[1:]:
+                f = l.split(" ")
+                if f[0] == "pre":
+                    real[f[1]] = f[2:]
+            for l in ls[1:]:
+                f = l.split(" ")
+                if f[0] == "post":
+                    real[f[1]] = f[2:]
+            m = model.get("c%d" % i)
+            if m is None or m["site"] == "none":
+                ck.unproved("correspondence StartFail.siteOf vs xmp_start_player",
+                            "case `%s`: the model has no failure site for this allocation index" % ls[0])
+                continue
+            sites[m["site"]] = sites.get(m["site"], 0) + 1
+            bad = None
+            for ctor, mv in m["m"].items():
+                rv = real.get(ctor)
+                if rv is None:
+                    bad = (ctor, "missing in the real image")
+                    break
+                for k, (a, bq) in enumerate(zip(mv, rv)):
+                    if a == "?":
+                        n_ext += 1
+                        continue
+                    n_vals += 1
+                    if a != bq:
+                        bad = (ctor, "index %d model %s real %s" % (k, a, bq))
+                        break
+                if bad:
+                    break
+            if bad:
+                ck.unproved("correspondence StartFail.failedStart vs xmp_start_player (member level)",
+                            "case `%s` site %s/%s: member %s: %s" % (ls[0], m["site"], m["second"], bad[0], bad[1]))
+            else:
+                n_ok += 1
+    ck.note("failed_start_images_compared", len(blocks))
+    ck.note("failed_start_image_sites", sites)
+    ck.note("failed_start_member_values_compared", n_vals)
+    ck.note("failed_start_member_values_external", n_ext)
+    return n_ok
 
 
 def replay(ck, rp):
@@ -520,6 +823,10 @@ def replay(ck, rp):
         open(os.path.join(scratch, "fake.mo3"), "wb").write(b"MO3\x05" + bytes(range(256)) * 2)
         open(os.path.join(scratch, "garbage.bin"), "wb").write(bytes((i * 37 + 11) & 0xff for i in range(3000)))
         make_wav(os.path.join(scratch, "s.wav"))
+        make_wav(os.path.join(scratch, "trunc.wav"), 64, actual=10)
+        c04_inputs.core_inputs(os.path.join(scratch, "core"))
+        import gzip
+        open(os.path.join(scratch, "mod.gz"), "wb").write(gzip.compress(open(os.path.join(vlib.REPO, "test", "test.xm"), "rb").read()))
         if "PATH" in env:
             hd = env["PATH"].split(":")[0]
             m = re.search(r"helper:[^:]+:(\w+):", rp.get("what", ""))
